@@ -129,29 +129,29 @@ def recipes():
     add = lambda *a, **k: R.append(Rc(*a, **k))
     # ---- make*: the guards do not depend on the state; a failed make may leave the object unchanged or empty
     for n in ["dims0", "dimsneg", "outsneg", "depthneg", "rule-localp", "rule-fourier", "rule-none", "aw-long", "aw-curved-short", "ll-long", "ll-short"]:
-        add("mg." + n, "makeGlobalGrid#0.t0", IA, ALWAYS, may_empty=True)
+        add("mg." + n, "makeGlobalGrid#0.t0", IA, ALWAYS)
     for n in ["custom-nofilename", "custom-nofile", "custom-badformat", "custom-badline2", "custom-dir"]:
         add("mg." + n, "makeGlobalGrid#0.t1", RE, ALWAYS, may_empty=True)
     add("mg.custom-tooshort", "makeGlobalGrid#0.t2?", None, ALWAYS, may_empty=True, note="custom table shorter than the requested depth (late failure inside rule construction)")
     add("mg.gp-toodeep", "makeGlobalGrid#0.t2?", None, ALWAYS, may_empty=True, note="Gauss-Patterson table shorter than the requested depth (late failure)")
     for n in ["dims0", "outsneg", "depthneg", "rule-wavelet"]:
-        add("mgraw." + n, "makeGlobalGrid#1.p0", IA, ALWAYS, may_empty=True)
+        add("mgraw." + n, "makeGlobalGrid#1.p0", IA, ALWAYS)
     for n in ["dims0", "outsneg", "depthneg", "rule-cc", "rule-localp", "aw-long", "aw-curved-short", "ll-long"]:
-        add("ms." + n, "makeSequenceGrid#0.t0", IA, ALWAYS, may_empty=True)
+        add("ms." + n, "makeSequenceGrid#0.t0", IA, ALWAYS)
     for n in ["dims0", "rule-gl"]:
-        add("msraw." + n, "makeSequenceGrid#1.p0", IA, ALWAYS, may_empty=True)
+        add("msraw." + n, "makeSequenceGrid#1.p0", IA, ALWAYS)
     for n in ["dims0", "outsneg", "depthneg", "order-2", "rule-leja", "rule-wavelet", "ll-long"]:
-        add("ml." + n, "makeLocalPolynomialGrid#0.t0", IA, ALWAYS, may_empty=True)
+        add("ml." + n, "makeLocalPolynomialGrid#0.t0", IA, ALWAYS)
     for n in ["dims0", "order-5"]:
-        add("mlraw." + n, "makeLocalPolynomialGrid#1.p0", IA, ALWAYS, may_empty=True)
+        add("mlraw." + n, "makeLocalPolynomialGrid#1.p0", IA, ALWAYS)
     for n in ["dims0", "outsneg", "depthneg", "order2", "order0", "ll-long"]:
-        add("mw." + n, "makeWaveletGrid#0.t0", IA, ALWAYS, may_empty=True)
+        add("mw." + n, "makeWaveletGrid#0.t0", IA, ALWAYS)
     for n in ["dims0", "order5"]:
-        add("mwraw." + n, "makeWaveletGrid#1.p0", IA, ALWAYS, may_empty=True)
+        add("mwraw." + n, "makeWaveletGrid#1.p0", IA, ALWAYS)
     for n in ["dims0", "outsneg", "depthneg", "aw-long", "ll-long"]:
-        add("mf." + n, "makeFourierGrid#0.p0", IA, ALWAYS, may_empty=True)
+        add("mf." + n, "makeFourierGrid#0.p0", IA, ALWAYS)
     for n in ["dims0", "depthneg"]:
-        add("mfraw." + n, "makeFourierGrid#1.p0", IA, ALWAYS, may_empty=True)
+        add("mfraw." + n, "makeFourierGrid#1.p0", IA, ALWAYS)
     # ---- update
     notupd = lambda s: s.gtype not in NONLOCAL
     for n in ["vec", "vec-limits", "raw"]:
@@ -259,18 +259,23 @@ def recipes():
     add("hbasisgpu.float", "evaluateHierarchicalFunctionsGPU#0.t0", RE, ALWAYS)
     add("hsparsegpu", "evaluateSparseHierarchicalFunctionsGPU#0.t0", RE, ALWAYS)
     # ---- files and streams: a failed read may leave the object unchanged (header) or empty
-    for n in ["magic", "magic3", "version", "version-future", "type", "type-upper", "trunc0", "trunc2", "trunc3", "domainflag", "endflag",
-              "ascii-as-binary", "empty-domain", "empty-limits", "empty-conformal"]:
+    # header failures (before clear()) must leave the object unchanged; failures in the body may leave it empty
+    for n in ["magic", "magic3", "version", "version-future", "trunc0", "trunc2", "trunc3", "ascii-as-binary"]:
+        add("rb." + n, "readBinary#0.t0", RE, ALWAYS)
+    for n in ["type", "type-upper", "domainflag", "endflag", "empty-domain", "empty-limits", "empty-conformal"]:
         add("rb." + n, "readBinary#0.t0", RE, ALWAYS, may_empty=True)
-    for n in ["word1", "word2", "future", "future-minor", "old", "nodot", "version-text", "version-huge", "warning", "type", "empty", "binary-as-ascii",
-              "domain", "end", "empty-domain"]:
+    for n in ["word1", "word2", "future", "future-minor", "old", "nodot", "version-text", "version-huge", "warning", "empty", "binary-as-ascii"]:
+        add("ra." + n, "readAscii#0.t0", RE, ALWAYS)
+    for n in ["type", "domain", "end", "empty-domain"]:
         add("ra." + n, "readAscii#0.t0", RE, ALWAYS, may_empty=True)
-    for n in ["magic", "version", "type", "trunc4"]:
+    for n in ["magic", "version"]:
+        add("rf." + n, "readBinary#0.t0", RE, ALWAYS)
+    for n in ["type", "trunc4"]:
         add("rf." + n, "readBinary#0.t0", RE, ALWAYS, may_empty=True)
     for n in ["dir", "emptyfile", "text", "future"]:
-        add("rf." + n, "readAscii#0.t0", RE, ALWAYS, may_empty=True)
-    add("rf.nofile", None, RE, ALWAYS, may_empty=True, note="unreadable path (listed by the property, no \\throws clause on read(filename))")
-    add("rf.nofile-string", None, RE, ALWAYS, may_empty=True)
+        add("rf." + n, "readAscii#0.t0", RE, ALWAYS)
+    add("rf.nofile", None, RE, ALWAYS, note="unreadable path (listed by the property, no \\throws clause on read(filename))")
+    add("rf.nofile-string", None, RE, ALWAYS)
     add("wf.nodir", None, RE, ALWAYS, note="unwritable path")
     add("wf.nodir-ascii", None, RE, ALWAYS)
     # ---- calls whose documentation does not cover the empty grid: observed, never judged (outside the contract)
